@@ -31,7 +31,7 @@ TRUSTED = ["ASan/UBSan/LSan, mmap guard pages and the harness ledger as observer
 LEVEL_TEXT = ("Machine-checked proof (Lean 4) over the checked-memory parser model: for ANY bytes, width, padding and stale stack content no "
               "read/write outside the len+64 buffer, no node-stack index >= max(16,len/2+2), no use or destruction of an unconstructed slot, "
               "document reusable afterwards, nothing leaked (C02_no_fault, C02_reads_bounded, C02_stack_bounded, C02_teardown_init, C02_reusable, "
-              "C02_no_leak) - the only number-related hypothesis left is the decidable guard ExpSmall (each number-like token is at most 9600 bytes long or has a written exponent below 100000 in absolute value - so every text of at most 9600 bytes satisfies it; known finding F6 lives outside it) - the number model itself is proved against the exact reference for every conversion path (C04). What a model cannot exhibit (real UB of compiled code, "
+              "C02_no_leak) - no hypothesis about numbers is left: the number model is proved against the exact reference for every conversion path and every written exponent (C04, after the fix of finding F6); the only size bound is length + 4 < 2^32. What a model cannot exhibit (real UB of compiled code, "
               "the heap) is outside any model; the model is tied to the compiled code by sanitizer, guard-page (incl. guarded non-freeing pool and user-buffer pool between canaries), dirty-heap and ledger runs on the differential corpus.")
 LEVEL_NOTE = "Trusted: Lean kernel; sanitizers, guard pages, tracking allocator; compiled Lean evaluation of the spec."
 TECHNIQUE = "Lean 4 checked-memory model theorems + sanitizer/guard-page/ledger validation of the real code on a differential corpus"
